@@ -72,14 +72,15 @@ theorem goodTok_false : GoodTok ['f','a','l','s','e'] :=
 theorem goodTok_null : GoodTok ['n','u','l','l'] :=
   goodTok_of_self _ (by intro acc rest; cases rest <;> rfl)
 
-/-- the characters a string item may hold for the splitter to find its end: ASCII, no quote, no backslash -/
-def strCharOk (c : Char) : Bool := isAscii c && c != '"' && c != '\\'
+/-- the characters a string may hold for the scanners to find its end: any character (of any script, brackets
+    included) that is neither the quotation mark nor the backslash — the property's quantifier -/
+def strCharOk (c : Char) : Bool := c != '"' && c != '\\'
 
 theorem splitStep_str (tok : Text) (c : Char) (l : Bool) (hc : strCharOk c = true) (ht : tok.head? ≠ some '\\') :
     splitStep (.str tok) c l = .next (.str (c :: tok)) := by
   simp only [strCharOk, Bool.and_eq_true, bne_iff_ne, ne_eq] at hc
-  obtain ⟨⟨h1, h2⟩, h3⟩ := hc
-  simp only [splitStep, h1, Bool.not_true, Bool.false_eq_true, if_false]
+  obtain ⟨h2, h3⟩ := hc
+  simp only [splitStep]
   have : (c != '"' && tok.head? != some '\\') = true := by simp [h2, ht]
   simp [this]
 
@@ -89,7 +90,7 @@ theorem splitRun_str (s : Text) (hs : ∀ c ∈ s, strCharOk c = true) (tok : Te
   induction s generalizing tok with
   | nil =>
     have : splitStep (.str tok) '"' rest.isEmpty = .emit ('"' :: tok).reverse .items := by
-      simp [splitStep, isAscii]
+      simp [splitStep]
     simp only [List.nil_append, splitRun, this, List.reverse_nil]
   | cons c cs ih =>
     have hc := hs c (by simp)
@@ -173,6 +174,126 @@ theorem goodTok_int (n : Int) : GoodTok (intToDec n) := by
   | negSucc k =>
     simp only [intToDec]
     exact goodTok_neg _ (natToDec_all (k + 1))
+
+/-! ### nested values: the bracket counters (shared by the array splitter and the object scanner) -/
+
+/-- the counting loop of the scanners run on `body` (the text after the opening bracket; `prev` = the
+    character read last, `s` = inside a string literal, `o` brackets open and `c` closed): the counters,
+    which skip brackets inside string literals, meet exactly at the last character -/
+def balRun (op cl : Char) : Option Char → Bool → Nat → Nat → Text → Bool
+  | _, _, _, _, [] => false
+  | prev, s, o, c, x :: xs =>
+    if bump op (strFlag prev s x) o x = bump cl (strFlag prev s x) c x then xs.isEmpty
+    else balRun op cl (some x) (strFlag prev s x) (bump op (strFlag prev s x) o x) (bump cl (strFlag prev s x) c x) xs
+
+/-- a nested object / array text the scanners read as one value -/
+def nestedOk (op cl : Char) (t : Text) : Bool :=
+  match t with
+  | [] => false
+  | x :: body => x == op && balRun op cl (some x) false 1 0 body && (x :: body).getLast? == some cl
+
+theorem splitRun_nestO (body : Text) (o c : Nat) (s : Bool) (tok : Text)
+    (hb : balRun '{' '}' tok.head? s o c body = true) (acc : List Text) (rest : Text) :
+    splitRun (.nestO tok o c s) acc (body ++ rest) = splitRun .items ((body.reverse ++ tok).reverse :: acc) rest := by
+  induction body generalizing o c s tok with
+  | nil => simp [balRun] at hb
+  | cons x xs ih =>
+    simp only [balRun] at hb
+    by_cases heq : bump '{' (strFlag tok.head? s x) o x = bump '}' (strFlag tok.head? s x) c x
+    · simp only [heq, if_true, List.isEmpty_iff] at hb
+      subst hb
+      have : splitStep (.nestO tok o c s) x rest.isEmpty = .emit (x :: tok).reverse .items := by
+        simp [splitStep, heq]
+      simp only [List.cons_append, List.nil_append, splitRun, this, List.reverse_cons, List.reverse_nil]
+    · simp only [heq, if_false] at hb
+      have : splitStep (.nestO tok o c s) x (xs ++ rest).isEmpty =
+          .next (.nestO (x :: tok) (bump '{' (strFlag tok.head? s x) o x) (bump '}' (strFlag tok.head? s x) c x) (strFlag tok.head? s x)) := by
+        simp [splitStep, heq]
+      simp only [List.cons_append, splitRun, this]
+      rw [ih _ _ _ (x :: tok) (by simpa using hb)]
+      simp
+
+theorem splitRun_nestA (body : Text) (o c : Nat) (s : Bool) (tok : Text)
+    (hb : balRun '[' ']' tok.head? s o c body = true) (acc : List Text) (rest : Text) :
+    splitRun (.nestA tok o c s) acc (body ++ rest) = splitRun .items ((body.reverse ++ tok).reverse :: acc) rest := by
+  induction body generalizing o c s tok with
+  | nil => simp [balRun] at hb
+  | cons x xs ih =>
+    simp only [balRun] at hb
+    by_cases heq : bump '[' (strFlag tok.head? s x) o x = bump ']' (strFlag tok.head? s x) c x
+    · simp only [heq, if_true, List.isEmpty_iff] at hb
+      subst hb
+      have : splitStep (.nestA tok o c s) x rest.isEmpty = .emit (x :: tok).reverse .items := by
+        simp [splitStep, heq]
+      simp only [List.cons_append, List.nil_append, splitRun, this, List.reverse_cons, List.reverse_nil]
+    · simp only [heq, if_false] at hb
+      have : splitStep (.nestA tok o c s) x (xs ++ rest).isEmpty =
+          .next (.nestA (x :: tok) (bump '[' (strFlag tok.head? s x) o x) (bump ']' (strFlag tok.head? s x) c x) (strFlag tok.head? s x)) := by
+        simp [splitStep, heq]
+      simp only [List.cons_append, splitRun, this]
+      rw [ih _ _ _ (x :: tok) (by simpa using hb)]
+      simp
+
+/-- a nested object is one item of the splitter -/
+theorem goodTok_obj (t : Text) (h : nestedOk '{' '}' t = true) : GoodTok t := by
+  cases t with
+  | nil => simp [nestedOk] at h
+  | cons x body =>
+    simp only [nestedOk, Bool.and_eq_true, beq_iff_eq] at h
+    obtain ⟨⟨hx, hb⟩, _⟩ := h
+    subst hx
+    apply goodTok_of_self
+    intro acc rest
+    have h1 : splitRun .items acc ('{' :: body ++ rest) = splitRun (.nestO ['{'] 1 0 false) acc (body ++ rest) := by
+      simp only [List.cons_append, splitRun]; rfl
+    rw [h1, splitRun_nestO body 1 0 false ['{'] hb]
+    simp
+
+/-- a nested array is one item of the splitter -/
+theorem goodTok_arr (t : Text) (h : nestedOk '[' ']' t = true) : GoodTok t := by
+  cases t with
+  | nil => simp [nestedOk] at h
+  | cons x body =>
+    simp only [nestedOk, Bool.and_eq_true, beq_iff_eq] at h
+    obtain ⟨⟨hx, hb⟩, _⟩ := h
+    subst hx
+    apply goodTok_of_self
+    intro acc rest
+    have h1 : splitRun .items acc ('[' :: body ++ rest) = splitRun (.nestA ['['] 1 0 false) acc (body ++ rest) := by
+      simp only [List.cons_append, splitRun]; rfl
+    rw [h1, splitRun_nestA body 1 0 false ['['] hb]
+    simp
+
+/-- the layout of `JSONArrayOfObjects::to_json`: items separated by `,\r\n` -/
+theorem splitRun_join_crlf (items : List Text) (hg : ∀ t ∈ items, GoodTok t) (acc : List Text) (rest : Text) :
+    splitRun .items acc (joinItems [',','\r','\n'] items ++ ']' :: rest) = splitRun .after (items.reverse ++ acc) rest := by
+  induction items generalizing acc with
+  | nil => simp [joinItems, splitRun_items_close]
+  | cons x xs ih =>
+    cases xs with
+    | nil =>
+      simp only [joinItems, List.reverse_cons, List.reverse_nil, List.nil_append, List.singleton_append]
+      exact (hg x (by simp)).2 acc rest
+    | cons y ys =>
+      have hx := (hg x (by simp)).1
+      have hsk : ∀ acc' (r : Text), splitRun .items acc' ('\r' :: '\n' :: r) = splitRun .items acc' r := by
+        intro acc' r; cases r <;> rfl
+      simp only [joinItems, List.append_assoc, List.cons_append, List.nil_append]
+      rw [hx, hsk]
+      have := ih (fun t ht => hg t (by simp [ht])) (x :: acc)
+      rw [this]
+      simp
+
+theorem split_listObjectToJson (items : List Text) (hg : ∀ t ∈ items, GoodTok t) :
+    splitIntoVectorOfStrings (listObjectToJson items) = .ok items := by
+  unfold splitIntoVectorOfStrings listObjectToJson
+  have h0 : ∀ body : Text, splitRun .start [] ('[' :: (body ++ [']'])) = splitRun .items [] (body ++ [']']) := by
+    intro body
+    have : (body ++ [']']).isEmpty = false := by cases body <;> rfl
+    simp only [splitRun, this]
+    rfl
+  rw [h0, splitRun_join_crlf items hg [] []]
+  simp [splitRun]
 
 /-! ### readers over the items -/
 
